@@ -5,6 +5,7 @@ R05a  codec agreement: each URL-based protocol percent-encodes local selectors w
       decoding layer, and the encoder's safe characters exclude the parser's separators
 R05b  prefix agreement: the WAP prefix added when rendering is the configured value the
       request test strips; the Gemini query prefix is one class constant on both sides
+R05f  prefix boundary: the WAP prefix claims the prefix itself and what lies below it, nothing that only starts alike
 R05c  virtual selectors: the separator genargsselector() emits is one Virtual.__init__ splits on
 R05e  the real part Virtual.__init__ settles on never contains a separator (so real|args, as
       built by genargsselector(), is cut where it was joined)
@@ -313,6 +314,7 @@ def check(ctx, rep):
     eff = Effects(prog, ctx.resolver)
     rep.rule("R05a", "selector encoder (renderobjinfo) and decoder (handle) of each URL-based protocol use the same codec; one decoding layer; safe chars exclude separators", floor=3)
     rep.rule("R05b", "WAP prefix: same configuration value rendered and stripped; Gemini query prefix: same class constant", floor=2)
+    rep.rule("R05f", "WAP prefix: only paths below the prefix are WAP by path; names merely starting with its letters are not", floor=6)
     rep.rule("R05c", "virtual selector separator emitted is one the parser splits on", floor=1)
     rep.rule("R05e", "virtual selectors round-trip: the real part Virtual.__init__ settles on never contains a separator", floor=1)
     rep.rule("R05d", "child selectors are selectorbase/name resolved through the handler chain; folder and message handlers agree on the argument flag", floor=3)
@@ -445,17 +447,9 @@ def check(ctx, rep):
             if isinstance(n, ast.Call) and isinstance(n.func, ast.Attribute) and n.func.attr == "get" and len(n.args) == 2 \
                     and isinstance(n.args[1], ast.Constant) and "wap" in str(n.args[1].value).lower():
                 key_cfg = (n.args[0].value, n.args[1].value) if isinstance(n.args[0], ast.Constant) else None
-        strip_ok = False
-        for n in ast.walk(can.node):
-            if isinstance(n, ast.Call) and isinstance(n.func, ast.Attribute) and n.func.attr == "startswith" and n.args:
-                a = expand_ast(n.args[0], can)
-                if isinstance(a, ast.Call) and isinstance(a.func, ast.Attribute) and a.func.attr == "get" and key_cfg and \
-                        [x.value for x in a.args if isinstance(x, ast.Constant)] == list(key_cfg):
-                    strip_ok = True
-                if norm(n.args[0]) == "self.waptop":
-                    strip_ok = True
-        if not strip_ok:
-            problems.append("the request test does not strip the configured WAP prefix")
+        # (that the request test strips exactly that prefix is decided by evaluation: R05f)
+        if key_cfg is None:
+            problems.append("the request test does not read the configured WAP prefix")
         render_vals = set()
         if grs is not None:
             for n in ast.walk(grs.node):
@@ -495,6 +489,8 @@ def check(ctx, rep):
         if not (isinstance(qp, ast.Constant) and isinstance(qp.value, str) and qp.value.startswith("/")):
             problems.append("query_prefix is not a constant path prefix")
         rep.add("R05b", "Gemini query prefix: one constant on both sides", not problems, ctx.where(ro or h), "; ".join(problems), key="R05b|gemini")
+
+    wap_prefix_boundary(ctx, rep, "R05f")
 
     # ------------------------------------------------------------------ R05c
     virt = ctx.cls("handlers.virtual.Virtual")
@@ -603,3 +599,58 @@ def check(ctx, rep):
             if not okp:
                 problems.append("the message handler does not parse <flag><digits>")
         rep.add("R05d", "folder handlers render what message handlers parse", not problems, ctx.where(prep or can), "; ".join(problems), key="R05d|mbox")
+
+
+# ---------------------------------------------------------------------------- R05f
+def wap_prefix_boundary(ctx, rep, rule="R05f"):
+    """Only request paths *below* the WAP prefix are WAP requests by their path alone: the prefix itself, prefix + '/...'
+    and prefix + '?...'.  A name that merely starts with the same letters (/wapiti.txt with prefix /wap) has to go on to
+    the header tests like any other HTTP request, or the plain HTTP view of that file is a different object.
+    WAPProtocol.canhandlerequest is evaluated by the walker on representative paths."""
+    from ..paths import Const, Walker
+
+    prog = ctx.prog
+    wap = ctx.cls("protocols.wap.WAPProtocol")
+    can = prog.resolve_method(wap, "canhandlerequest") if wap else None
+    if can is None:
+        rep.fail(rule, "WAPProtocol.canhandlerequest", detail="WAP request test not found")
+        return
+    PREFIX = "/wap"
+    cases = [("/wap", True), ("/wap/", True), ("/wap/docs/a.txt", True), ("/wap?searchrequest=x", True),
+             ("/wapiti.txt", False), ("/wapping/x", False), ("/wa", False), ("/docs/wap", False)]
+    for path, by_prefix in cases:
+        def cv(call, target, st):
+            d = dotted(call.func) or ""
+            if d.endswith("canhandlerequest") and "HTTPProtocol" in d or (isinstance(call.func, ast.Attribute) and call.func.attr == "canhandlerequest"
+                                                                          and norm(call.func.value).startswith("super(")):
+                return Const(True)
+            if isinstance(call.func, ast.Attribute) and call.func.attr == "get" and len(call.args) == 2 \
+                    and isinstance(call.args[1], ast.Constant) and call.args[1].value == "waptop":
+                return Const(PREFIX)
+            return None
+
+        facts = {"self.requestparts[1]": Const(path)}
+        w = Walker(prog, ctx.resolver, assumptions=facts, call_value=cv)
+        early, late, stripped = 0, 0, set()
+        for p in w.run(can, wap, facts=dict(facts)):
+            if p.kind == "raise":
+                continue
+            slurped = any(e.kind == "call" and isinstance(e.node.func, ast.Attribute) and e.node.func.attr == "headerslurp" for e in p.events)
+            if p.kind == "return" and truth(p.value) is True and not slurped:
+                early += 1
+                v = p.state.facts.get("self.requestparts[1]")
+                stripped.add(v.value if v is not None and v.kind == "const" else None)
+            else:
+                late += 1
+        problems = []
+        if by_prefix:
+            if late or not early:
+                problems.append(f"the path {path!r} (below the prefix {PREFIX!r}) is not accepted as a WAP request by its prefix alone")
+            elif stripped != {path[len(PREFIX):]}:
+                problems.append(f"the prefix is not stripped from {path!r}: the selector becomes {sorted(map(str, stripped))}")
+        else:
+            if early:
+                problems.append(f"the path {path!r} is taken for a WAP request because it starts with the letters of the prefix {PREFIX!r}: "
+                                f"over plain HTTP it is answered with the object {sorted(map(str, stripped))} instead of {path!r}")
+        rep.add(rule, f"{can.qualname}: {path!r} {'is' if by_prefix else 'is not'} WAP by prefix", not problems, ctx.where(can), "; ".join(problems),
+                key=f"{rule}|{path}")
